@@ -3,6 +3,7 @@ use std::fmt;
 use std::str::FromStr;
 
 use dns_types::protocol::types::*;
+use dns_types::zones::types::{ZoneResult, Zones};
 
 pub const CANNOT_PARSE_PROTOCOL_MODE: &str =
     "expected one of 'only-v4', 'prefer-v4', 'prefer-v6', 'only'v6'";
@@ -146,6 +147,35 @@ impl Nameservers {
     pub fn match_count(&self) -> usize {
         self.name.labels.len()
     }
+}
+
+/// Find, in an upstream answer, the first alias whose target local data
+/// speaks for: a name in a zone we are authoritative for, or a name a hosts
+/// file or non-authoritative zone has records (of the type asked for, or an
+/// alias, or a delegation) for.  What the upstream says about such a name must
+/// not be used: the zones answer for it.
+///
+/// Returns the position of that alias in `rrs`, and its target.
+pub fn alias_into_local_data(
+    zones: &Zones,
+    qtype: QueryType,
+    rrs: &[ResourceRecord],
+) -> Option<(usize, DomainName)> {
+    for (i, rr) in rrs.iter().enumerate() {
+        if let RecordTypeWithData::CNAME { cname } = &rr.rtype_with_data {
+            let is_local = match zones.resolve(cname, qtype) {
+                Some((zone, _)) if zone.is_authoritative() => true,
+                Some((_, ZoneResult::Answer { rrs })) => !rrs.is_empty(),
+                Some((_, ZoneResult::CNAME { .. } | ZoneResult::Delegation { .. })) => true,
+                Some((_, ZoneResult::NameError)) | None => false,
+            };
+            if is_local {
+                return Some((i, cname.clone()));
+            }
+        }
+    }
+
+    None
 }
 
 /// Merge two sets of RRs, where records from the second set are
